@@ -78,6 +78,8 @@ def run(prog, rep, tier, repo):
                 rep.touch(hk)
             me = ('arg', 1, st.names.get(1))
             W = [fi for fi in eff.state if fi in param_fields]
+            if not eff.undec and any(fi in eff.partial for fi in W):
+                eff.undec = 'parameter field written on some paths only'
             if eff.undec:
                 for fi in (W or ['?']):
                     rep.undecided('setter-agree', 'setter-agree:%s:%s' % (sk, sm.fname(fi) if fi != '?' else '?'),
@@ -100,7 +102,11 @@ def run(prog, rep, tier, repo):
                     continue
                 key = 'cache-coherent:%s:%s' % (sk, sm.fname(ci))
                 want = om.clean(exp[ci])
-                if got is None:
+                if ci in eff.partial and touched:
+                    rep.viol('cache-coherent', key, '%s writes %s but rebuilds the derived field `%s` only on some paths (new() initialises it unconditionally as %s): '
+                             'on the other paths it keeps the value of the previous parameters' % (
+                                 short(sk), ', '.join(sm.fname(f) for f in touched), sm.fname(ci), show(sm.inits[ci])[:60]), site_of(st.body))
+                elif got is None:
                     rep.viol('cache-coherent', key, '%s writes %s but leaves the derived field `%s` (initialised in new as %s) '
                              'unchanged: the object differs from a freshly constructed twin' % (
                                  short(sk), ', '.join(sm.fname(f) for f in touched), sm.fname(ci), show(sm.inits[ci])), site_of(st.body))
@@ -239,7 +245,9 @@ def _check_update(prog, rep, sm, om, uf, param_fields, derived):
     for ci in sorted(set(exp) - set(param_fields)):
         got = eff.state.get(ci)
         depends = ci in derived
-        if got is None:
+        if ci in eff.partial and depends:
+            problems.append('the derived field `%s` is rebuilt only on some paths' % sm.fname(ci))
+        elif got is None:
             if depends:
                 problems.append('the derived field `%s` is not rebuilt' % sm.fname(ci))
         elif om.clean(got) != om.clean(exp[ci]):
